@@ -43,7 +43,9 @@ pub fn install_quiet_panic_hook() {
     let repo = crate::report::repo_root().to_string_lossy().to_string();
     std::panic::set_hook(Box::new(move |info| {
         if let Some(loc) = info.location() {
-            if loc.file().starts_with(&repo) {
+            // crates only the library (never the harness) depends on: a panic inside one of them was reached through a library call
+            const LIB_ONLY_DEPS: [&str; 14] = ["/num-bigint-", "/num-integer-", "/num-traits-", "/rug-", "/gmp-mpfr-sys", "/sha-1-", "/sha1-", "/hmac-", "/md-5-", "/digest-", "/rand-", "/rand_core-", "/rand_chacha-", "/generic-array-"];
+            if loc.file().starts_with(&repo) || LIB_ONLY_DEPS.iter().any(|d| loc.file().contains(d)) {
                 let p = info.payload();
                 let msg = if let Some(s) = p.downcast_ref::<&str>() {
                     s.to_string()
@@ -54,7 +56,8 @@ pub fn install_quiet_panic_hook() {
                 };
                 if let Ok(mut v) = LIB_PANICS.lock() {
                     if v.len() < 4096 {
-                        v.push((msg, format!("{}:{}", &loc.file()[repo.len()..].trim_start_matches('/'), loc.line())));
+                        let shown = if loc.file().starts_with(&repo) { loc.file()[repo.len()..].trim_start_matches('/').to_string() } else { loc.file().rsplit("/registry/src/").next().unwrap_or(loc.file()).to_string() };
+                        v.push((msg, format!("{}:{}", shown, loc.line())));
                     }
                 }
             }
